@@ -427,10 +427,10 @@ def round_trips(ctx, repo):
             ctx.ob("R2", f"{key}::builds", False, f"{cname}.{builder} raises {e.what} for in-range field values", bfi.loc)
             continue
         except Undecided as e:
-            if "truth" in str(e):
-                concrete_sweep(ctx, repo, interp, classes, (cname, builder, args, expect, desc), f"the builder: {e}")
-                continue
-            raise AnalysisError(f"{key}: cannot interpret the builder: {e}")
+            # control flow or a library call that needs a concrete value (`if seq:`, chr(seq)): decided on concrete values;
+            # the sweep itself reports what cannot be interpreted even then
+            concrete_sweep(ctx, repo, interp, classes, (cname, builder, args, expect, desc), f"the builder: {e}")
+            continue
         wire = wire_of(msg, interp)
         if wire is None:
             ctx.ob("R2", f"{key}::builds", False, f"{cname}.{builder} produced no content", bfi.loc)
